@@ -2,10 +2,12 @@
 from propslib import fn_scope
 
 PROP = dict(
-    extract=["bopomofo", "syllable", "estimate"],      # the fuzzy search predicate of the walk driver uses the C13 model
-    lean_targets=["Chewing.Props.C12"],
-    runs=[dict(bin="legacy", timeout=900), dict(bin="corrupt", timeout=1500, timeout_thorough=6000)],
-    scope=fn_scope("loader start", "loader cstart", "walk lookup", "walk entries", "walk open", "walk validate"),
+    extract=["bopomofo", "syllable", "estimate", "sysloader"],      # the fuzzy search predicate of the walk driver uses the C13 model
+    lean_targets=["Chewing.Props.C12", "Chewing.Props.C12NewCtx"],
+    runs=[dict(bin="legacy", timeout=900), dict(bin="corrupt", timeout=1500, timeout_thorough=6000),
+          dict(bin="newctx", timeout=900, timeout_thorough=3000)],
+    scope=fn_scope("loader start", "loader cstart", "walk lookup", "walk entries", "walk open", "walk validate",
+                   "sysl load", "sysl dropin", "sysl abbrev", "sysl symbols", "sysl parseabbrev", "sysl parsesym", "sysl new2", "sysl crash"),
     level="proof",
     exhaustive=False,
     rule="one evaluation = one call of the real code recomputed by the model: UserDictionaryLoader::load / chewing_new2 over a "
@@ -19,7 +21,16 @@ PROP = dict(
          "accept/reject and the decoded sections), validate_index alone on every index assembled by the harness (`walk validate`), and "
          "Trie::lookup_* / Trie::entries() over every accepted file, each step in a child process with a 2 s watchdog; the real outcome "
          "class ok/panic/hang is part of the record and the model must predict it (the model's entries() runs with exactly the proved "
-         "bound 16n+2 as fuel). distinct = distinct record text",
+         "bound 16n+2 as fuel). Creation clause (run newctx, `sysl` records): generated directory trees in a temp dir (search paths of "
+         "1-5 segments incl. empty = current directory, missing, duplicate and trailing-slash segments; word.dat / tsi.dat valid, "
+         "corrupt, a directory, or only one of them; dictionary.d absent / a file / 0-6 entries valid, corrupt, empty, directories named "
+         "*.dat, names that sort differently by byte and by locale, `.dat`, other extensions; swkb.dat / symbols.dat with blank lines, "
+         "lines without / starting with the separator, CR LF, not UTF-8; user path :memory:, fresh, valid, corrupt, read-only, a "
+         "directory, wrong extension, empty, not UTF-8, NULL with CHEWING_USER_PATH / HOME(.chewing | .local/share) / XDG_DATA_HOME; "
+         "syspath NULL with CHEWING_PATH or the default, not UTF-8) -> the real SystemDictionaryLoader::{load, load_drop_in, load_abbrev, "
+         "load_symbol_selector}, AbbrevTable::open, SymbolSelector::new and chewing_new2 / chewing_new in worker processes (watchdog 20 s, "
+         "restart after an abort), each recomputed by Model/SysLoader.lean (the model is told per file whether the real Trie::open "
+         "accepted it). distinct = distinct record text",
     trusted_base=[
         "crate der 0.7: the eight shapes the trie format uses are modelled at byte level (Model/Der.lean, shared with C11) and tied to "
         "the code by the `walk open` correspondence on every corrupted file; decoding one phrase record (PhrasesIter over a leaf's "
@@ -45,7 +56,16 @@ PROP = dict(
         "F40 (a stored phrase frequency within reach of u32::MAX aborted the first commit that learns the phrase: add with overflow in "
         "estimate.rs) is repaired in the repository (saturating_add); stored_freq_never_overflows is stated over C08's estimate model, which "
         "the translator ties to the saturating form; the witness file stays in the harness and has no oracle class any more",
-        "swkb.dat / symbols.dat loaders and the SQLite user dictionary are not covered",
+        "creation clause: four defects found by this model are repaired in the repository (fix: commits of branch wp-newctx) - a syspath / "
+        "userpath that is not UTF-8 aborted chewing_new2 (expect), a swkb.dat line without a separator or starting with one panicked "
+        "AbbrevTable::open, an empty user path panicked UserDictionaryLoader::load (parent().expect), a blank line of symbols.dat became a "
+        "nameless category whose choice panicked; the model follows the repaired code, the pre-fix behaviour is kept as witness theorems "
+        "(newContextOrig_panics_notUtf8, abbrev_orig_panics, loadUserOrig_panics_empty_path, symbols_orig_blank_line_not_wf)",
+        "creation model: paths are UTF-8 strings or the one value `not UTF-8`; the OS's name resolution is an arbitrary function path -> "
+        "node (symbolic links, `..`, the current directory); file names inside a directory are UTF-8; unix branch of src/path.rs "
+        "(not macOS / Windows); the embedded mini.dat opens (`builtin_needed`: necessary; observed on every run as the built-in "
+        "fall-back); the SQLite user dictionary (*.sqlite3 user path) is an abstract parameter; I/O errors other than absence "
+        "(EACCES, EIO while reading) are not modelled",
     ],
 )
 
@@ -68,7 +88,19 @@ MANIFEST = dict(
          "validation they loop for every fuel, multiply threads, panic at both sites / at the unwrap. C11's "
          "`validate_write`: every file TrieBuilder::write produces passes the validation. Tie: the model must predict the real outcome "
          "(accept/reject of Trie::new on every corrupted file; result, panic or hang of every traversal); an independent oracle "
-         "reports any panic, abort, watchdog timeout, result larger than the file, or an accepted index that is not a breadth-first tree or has a node syllable that is not a syllable code (every failure is class new: no known class remains).",
+         "reports any panic, abort, watchdog timeout, result larger than the file, or an accepted index that is not a breadth-first tree or has a node syllable that is not a syllable code (every failure is class new: no known class remains). "
+         "CREATION CLAUSE (Chewing/Props/C12NewCtx.lean over Model/SysLoader.lean = src/path.rs, SystemDictionaryLoader, AbbrevTable::open, "
+         "SymbolSelector::new, the path-level part of UserDictionaryLoader::load and the control flow of chewing_new2 / chewing_new / "
+         "chewing_delete; constants regenerated from the source by tools/extractors/sysloader.py incl. a fail-closed inventory of the "
+         "unwrap/expect sites of chewing_new2): for EVERY file system, environment, Trie::open and path argument (NULL, UTF-8, not UTF-8) "
+         "chewing_new2 returns (`newContext_no_panic`, `newContext_std_no_panic` with C12's start_total plugged in), NULL exactly when a path "
+         "argument is not UTF-8 or the user dictionary cannot be loaded (`newContext_null_iff`, `loadUser_none_iff`); a missing or corrupt "
+         "word.dat + tsi.dat pair falls back to the built-in dictionary (`corrupt_system_pair_falls_back`, `sys_dicts_of_created`); a drop-in "
+         "that does not open is skipped, the others keep their order, order = search-path order then file-name order (`drop_in_corrupt_skipped`, "
+         "`drop_in_order`, `mem_dropInNames`); split(':') keeps empty segments (`search_path_split`); both text parsers are total functions of "
+         "the bytes, fail exactly on a line that is not UTF-8 (`parse_fails_iff_not_utf8`), and every table symbols.dat can yield satisfies C01's "
+         "SymWF (`parseSymbols_wf`: C01's hypothesis about the symbol table is discharged at creation). Oracle: abort / hang / panic of any "
+         "loader, NULL vs. the user-side kind, the dictionaries of the context vs. an independent computation over the tree.",
     note="F14/F15/F39(legacy)/F26, F40 and F16/F17 were repaired by fix: commits and are proved absent in the model of the repaired "
          "code (witnesses kept as theorems about the pre-fix decoder / the unvalidated walk). F39 (dictionary-file form) — a hand-made "
          "or corrupt file (e.g. one written directly through TrieBuilder::insert(&[], ..)) holding an entry under the empty key made "
